@@ -1010,95 +1010,115 @@ func ruleSibExtensible(c *Ctx, r *R) {
 			r.ok("reviewed:"+name, site, why)
 			continue
 		}
-		// blocks that settle the question: a call of the ordinary implementation (or of another implementation of the
-		// slot), a read of extensible (here or in a callee), a refusal (typeErrorResult, panic)
-		cut := map[*ssa.BasicBlock]bool{}
-		for _, b := range fn.Blocks {
-			for _, ins := range b.Instrs {
-				switch x := ins.(type) {
-				case *ssa.UnOp:
-					if x.Op == token.MUL && isFieldAddr(x.X, "object", "extensible") {
-						cut[b] = true
-					}
-				case *ssa.Panic:
-					cut[b] = true
-				case ssa.CallInstruction:
-					callee := x.Common().StaticCallee()
-					if callee == nil {
-						continue
-					}
-					if len(callee.Blocks) > 0 && callee.Signature.Results().Len() == 1 {
-						// a refusal helper (a closure of this function or a function of the package): every return of it
-						// is the constant false (or it panics)
-						refuses, nRet := true, 0
-						for _, cb := range callee.Blocks {
-							if ret, ok := cb.Instrs[len(cb.Instrs)-1].(*ssa.Return); ok {
-								nRet++
-								k, isK := ret.Results[0].(*ssa.Const)
-								if !isK || k.Value == nil || k.Value.String() != "false" {
-									refuses = false
-								}
-							}
-						}
-						if refuses && nRet > 0 {
-							cut[b] = true
-							continue
-						}
-					}
-					if callee.Parent() == fn {
-						continue
-					}
-					if callee.Name() == "objectDefineOwnProperty" || callee.Name() == "typeErrorResult" || readsExt(callee, 1) {
-						cut[b] = true
-					}
-					for _, other := range impls {
-						if other == callee {
-							cut[b] = true
-						}
-					}
-				}
-			}
-		}
-		// a path from entry to a return of `true` (or any return) that meets no such block
-		var witness []string
-		seen := map[*ssa.BasicBlock]bool{}
-		var dfs func(b *ssa.BasicBlock, path []string) bool
-		dfs = func(b *ssa.BasicBlock, path []string) bool {
-			if seen[b] || cut[b] {
-				return false
-			}
-			seen[b] = true
-			path = append(path, fmt.Sprintf("%d(%s)", b.Index, b.Comment))
-			if ret, ok := b.Instrs[len(b.Instrs)-1].(*ssa.Return); ok {
-				// returning the constant false is a refusal
-				if len(ret.Results) == 1 {
-					if k, ok := ret.Results[0].(*ssa.Const); ok && k.Value != nil && k.Value.String() == "false" {
-						return false
-					}
-				}
-				witness = append([]string{}, path...)
-				return true
-			}
-			existsSide := -1
-			if iff, ok := b.Instrs[len(b.Instrs)-1].(*ssa.If); ok {
-				existsSide = existenceSide(iff.Cond)
-			}
-			for i, s2 := range b.Succs {
-				if i == existsSide {
-					continue // the property exists on this side: 8.12.9 step 3 does not apply
-				}
-				if dfs(s2, path) {
-					return true
-				}
-			}
-			return false
-		}
-		if dfs(fn.Blocks[0], nil) {
+		witness := sibExtensibleUnsettled(fn, impls, readsExt, 0)
+		if witness != nil {
 			r.bad(name, site, fmt.Sprintf("%s can return successfully (blocks %v) without handing the definition to the ordinary [[DefineOwnProperty]] and without reading object.extensible: an object of this class gains properties after Object.preventExtensions / seal / freeze (`Object.preventExtensions(goMap); goMap.k = 1` adds the key; `Object.freeze(goSlice); goSlice.push(1)` appends)", name, witness))
 		} else {
 			r.ok(name, site, "every successful path goes through the ordinary implementation, a read of object.extensible, or a refusal")
 		}
 	}
+}
+
+// sibExtensibleUnsettled: a path of fn from its entry to a successful return (anything but the constant false) that
+// meets no block that settles the extensibility question: a call of the ordinary implementation or of another
+// implementation of the slot, a read of object.extensible (here or in a callee), a refusal (typeErrorResult, a panic, a
+// helper that only ever returns false), or a call of a helper of the package that itself has no unsettled path (the
+// implementation split into steps). nil when there is none.
+func sibExtensibleUnsettled(fn *ssa.Function, impls []*ssa.Function, readsExt func(*ssa.Function, int) bool, depth int) []string {
+	cut := map[*ssa.BasicBlock]bool{}
+	for _, b := range fn.Blocks {
+		for _, ins := range b.Instrs {
+			switch x := ins.(type) {
+			case *ssa.UnOp:
+				if x.Op == token.MUL && isFieldAddr(x.X, "object", "extensible") {
+					cut[b] = true
+				}
+			case *ssa.Panic:
+				cut[b] = true
+			case ssa.CallInstruction:
+				callee := x.Common().StaticCallee()
+				if callee == nil {
+					continue
+				}
+				if len(callee.Blocks) > 0 && callee.Signature.Results().Len() == 1 {
+					refuses, nRet := true, 0
+					for _, cb := range callee.Blocks {
+						if ret, ok := cb.Instrs[len(cb.Instrs)-1].(*ssa.Return); ok {
+							nRet++
+							k, isK := ret.Results[0].(*ssa.Const)
+							if !isK || k.Value == nil || k.Value.String() != "false" {
+								refuses = false
+							}
+						}
+					}
+					if refuses && nRet > 0 {
+						cut[b] = true
+						continue
+					}
+				}
+				if callee.Parent() == fn {
+					continue
+				}
+				if callee.Name() == "objectDefineOwnProperty" || callee.Name() == "typeErrorResult" || readsExt(callee, 1) {
+					cut[b] = true
+				}
+				for _, other := range impls {
+					if other == callee {
+						cut[b] = true
+					}
+				}
+				// a step of this implementation moved into a helper: settled there on every successful path, and its
+				// result is what this function returns
+				if !cut[b] && depth < 2 && len(callee.Blocks) > 0 && callee.Pkg == fn.Pkg && callee.Signature.Results().Len() == 1 && typeStr(callee.Signature.Results().At(0).Type()) == "bool" {
+					takesObject := false
+					for _, prm := range callee.Params {
+						if typeStr(prm.Type()) == "*object" {
+							takesObject = true
+						}
+					}
+					if takesObject && sibExtensibleUnsettled(callee, impls, readsExt, depth+1) == nil {
+						cut[b] = true
+					}
+				}
+			}
+		}
+	}
+	var witness []string
+	seen := map[*ssa.BasicBlock]bool{}
+	var dfs func(b *ssa.BasicBlock, path []string) bool
+	dfs = func(b *ssa.BasicBlock, path []string) bool {
+		if seen[b] || cut[b] {
+			return false
+		}
+		seen[b] = true
+		path = append(path, fmt.Sprintf("%d(%s)", b.Index, b.Comment))
+		if ret, ok := b.Instrs[len(b.Instrs)-1].(*ssa.Return); ok {
+			if len(ret.Results) == 1 {
+				if k, ok := ret.Results[0].(*ssa.Const); ok && k.Value != nil && k.Value.String() == "false" {
+					return false
+				}
+			}
+			witness = append([]string{}, path...)
+			return true
+		}
+		existsSide := -1
+		if iff, ok := b.Instrs[len(b.Instrs)-1].(*ssa.If); ok {
+			existsSide = existenceSide(iff.Cond)
+		}
+		for i, s2 := range b.Succs {
+			if i == existsSide {
+				continue // the property exists on this side: 8.12.9 step 3 does not apply
+			}
+			if dfs(s2, path) {
+				return true
+			}
+		}
+		return false
+	}
+	if dfs(fn.Blocks[0], nil) {
+		return witness
+	}
+	return nil
 }
 
 func ruleSibExoticDefine(c *Ctx, r *R) {
